@@ -123,7 +123,8 @@ def q_exec(q):
 
 
 def build_plans(world):
-    tree = [{"t": "d", "p": "$ROOT/out"}, {"t": "f", "p": "$ROOT/other.conf", "c": "g=1\n[A]\nk1=o\nzz=2\n[New]\nn=3\n"}]
+    tree = [{"t": "d", "p": "$ROOT/out"}, {"t": "f", "p": "$ROOT/other.conf", "c": "g=1\n[A]\nk1=o\nzz=2\n[New]\nn=3\n"},
+            {"t": "f", "p": "$ROOT/out/snap.conf", "c": "stale=1\n" * 300}]
     ops = []
     D, C = world["D"], world["C"]
     hist_member = None
